@@ -18,7 +18,8 @@ import (
 // its first byte, so a whole Ethernet frame sent as one datagram is, for the filter and for Read, a frame arriving on the
 // wire.  After every installation of a history a set of frames is put on the wire and what Read hands out is noted.
 //
-//	input (30 ((type src dst sport dport) ...) frame)    the installations so far, oldest first; type: 0 none 1 icmp 2 udp 3 tcp 4 synack
+//	input (30 ((type src dst sport dport) ...) frame [1])  the installations so far, oldest first; type: 0 none 1 icmp 2 udp 3 tcp 4 synack;
+//	                                                       a trailing 1: the frame arrived before the LAST installation and had not been read
 //	impl  (captured)                                      1: Read handed the frame out after the LAST installation
 type histSpec struct {
 	typ int
@@ -58,6 +59,7 @@ func c12Histories(r *rng, w *caseWriter, tags map[string]int, n int) {
 		// and then another target)
 		var hist []histSpec
 		var cfgs []tcpCfg
+		var pending [][]byte // frames of the previous step that were left in the socket (sent, never read)
 		steps := 2 + r.intn(3)
 		for s := 0; s < steps; s++ {
 			c := tcpCfg{src: target, dst: local, sport: 443, dport: uint16(40001 + r.intn(3))}
@@ -87,15 +89,23 @@ func c12Histories(r *rng, w *caseWriter, tags map[string]int, n int) {
 				}
 				seen[c] = true
 				seg := buildTCP4(tcpHdr{sport: c.sport, dport: c.dport, seq: 1000, ack: 2001, flags: 0x12, win: 512}, nil, c.src, c.dst)
-				frames = append(frames, etherFrame(buildIP4(ip4Hdr{ttl: 57, proto: 6, src: c.src, dst: c.dst, id: uint16(100 + len(frames))}, seg)))
+				frames = append(frames, etherFrame(buildIP4(ip4Hdr{ttl: 57, proto: 6, src: c.src, dst: c.dst, id: uint16(100*(s+1) + len(frames))}, seg)))
 			}
-			q := buildIP4(ip4Hdr{ttl: 1, proto: 17, src: local, dst: target, id: 7}, buildUDP4(40001, 33434, []byte("xy"), local, target))
+			// (the step number is in every frame - IP identification, quoted identification - so the frames of different steps differ)
+			q := buildIP4(ip4Hdr{ttl: 1, proto: 17, src: local, dst: target, id: uint16(7 + 100*(s+1))}, buildUDP4(40001, 33434, []byte("xy"), local, target))
 			frames = append(frames, etherFrame(te4([4]byte{10, 0, 0, 1}, local, 11, 0, q[:28], nil, [4]byte{})))
-			frames = append(frames, etherFrame(buildIP4(ip4Hdr{ttl: 60, proto: 17, src: target, dst: local, id: 9}, buildUDP4(53, 40001, []byte("zz"), target, local))))
+			frames = append(frames, etherFrame(buildIP4(ip4Hdr{ttl: 60, proto: 17, src: target, dst: local, id: uint16(9 + 100*(s+1))}, buildUDP4(53, 40001, []byte("zz"), target, local))))
 			for _, f := range frames {
 				must(unix.Send(peer, f, 0))
 			}
+			if i >= 4 && s < steps-1 && r.intn(3) == 0 {
+				// this step's frames stay in the socket: the next installation finds them there
+				pending = frames
+				tags["source_history_frames_left_unread"] += len(frames)
+				continue
+			}
 			got := make([]bool, len(frames))
+			gotStale := make([]bool, len(pending))
 			buf := make([]byte, 2048)
 			for {
 				must(src.SetReadDeadline(time.Now().Add(15 * time.Millisecond)))
@@ -109,6 +119,11 @@ func c12Histories(r *rng, w *caseWriter, tags map[string]int, n int) {
 						got[j] = true
 					}
 				}
+				for j, f := range pending {
+					if bytes.Equal(buf[:k], f[14:]) {
+						gotStale[j] = true
+					}
+				}
 			}
 			hs := sxList{}
 			for _, h := range hist {
@@ -118,6 +133,12 @@ func c12Histories(r *rng, w *caseWriter, tags map[string]int, n int) {
 				w.put(L(sxInt(30), hs, sxBytes(f)), L(sxBool(got[j])))
 				tags["source_history_frames"]++
 			}
+			// a frame that arrived BEFORE the last installation (under the filter before it) and was still in the socket
+			for j, f := range pending {
+				w.put(L(sxInt(30), hs, sxBytes(f), sxInt(1)), L(sxBool(gotStale[j])))
+				tags["source_history_stale_frames"]++
+			}
+			pending = nil
 			tags["source_history_installs"]++
 		}
 		src.Close()
